@@ -629,6 +629,11 @@ func (s *Service) RestoreTopic(topic string) error {
 func (s *Service) CloseTopic(topic string) error {
 	s.mu.Lock()
 	defer s.mu.Unlock()
+	// Wait for the events that are being collected: once the topic is gone
+	// they are not stored anymore.
+	l := s.persistLock(topic)
+	l.Lock()
+	defer l.Unlock()
 
 	s.closedMu.Lock()
 	s.closedTopics[topic] = true
@@ -642,6 +647,11 @@ func (s *Service) CloseTopic(topic string) error {
 func (s *Service) DeleteTopic(topic string) error {
 	s.mu.Lock()
 	defer s.mu.Unlock()
+	// Wait for the events that are being collected: stored after the delete
+	// they would bring the deleted state back.
+	l := s.persistLock(topic)
+	l.Lock()
+	defer l.Unlock()
 	s.closedMu.Lock()
 	delete(s.closedTopics, topic)
 	s.closedMu.Unlock()
